@@ -182,3 +182,51 @@ def meta_byte(ctx):
     vals = [("full_entry", [x], _concrete(prog, r"^full_entry$", ["u64"], [x], "bv", "bitbox/meta_map.rs"))
             for x in (0, 1 << 57, (1 << 64) - 1, 0x7f << 57, 12345)]
     return qs, ex.encoded, vals
+
+
+def alloc_grow(ctx):
+    """beatree::allocator::grow(file, page): the store file is extended to a chunk boundary strictly
+    beyond the requested page (so a freshly allocated page beyond the old end is always inside the
+    file), without arithmetic overflow, and the boundary returned is the length set."""
+    prog = ctx.program("nomt")
+    ex = mir.Exec(prog, "int")
+    ex.allow_opaque = True
+    f = prog.find_fn(r"^allocator::grow$", "beatree/allocator/mod.rs")
+    page = ex.mk_input("page", "u32")
+    ex.run(f, [mir.Opaque("file"), (page,)])
+    G, _ = ex.named_const("beatree::allocator::GROW_STORE_BY_PAGES")
+    PS, _ = ex.named_const("io::PAGE_SIZE")
+    LIM = (1 << 32) - 2 * 8192
+    pre = [page >= 0, page <= LIM]
+    qs = _panic_queries(ex, pre, "grow", [page], "grow")
+    dec = lambda m: ("grow", [m.eval(page, model_completion=True).as_long()])
+
+    def viol(args, nat):
+        if nat == "panic" or nat == (1 << 64) - 1:
+            return nat == "panic"
+        nb, pages = nat >> 32, nat & 0xffffffff
+        p = args[0]
+        return not (nb > p and nb % 8192 == 0 and nb <= p + 2 * 8192 - 2 and pages == nb)
+    set_len = [c for c in ex.calls if "set_len" in c[1]]
+    if len(set_len) != 1:
+        raise mir.Unsupported("grow: expected exactly one set_len call, found %d" % len(set_len))
+    length = set_len[0][2][1]
+    oks = [(pc, v) for pc, v in ex.returns if isinstance(v, tuple) and v and v[0] == "Ok"]
+    if not oks:
+        raise mir.Unsupported("grow: no Ok return found")
+    for i, (pc, v) in enumerate(oks):
+        nb = v[1][0][0]
+        ok = z3.And(nb > page, nb % G == 0, nb <= page + 2 * G - 2, length == nb * PS)
+        qs.append(Query("grow(page) = boundary: multiple of the chunk size, strictly beyond `page`, at most two chunks away, and "
+                        "set_len(boundary * PAGE_SIZE) was issued [ret %d]" % i,
+                        ex.range_constraints + pre + [pc, z3.Not(ok)], "unsat", dec, viol))
+        qs.append(Query("Ok path %d reachable" % i, ex.range_constraints + pre + [pc], "sat"))
+    vals = []
+    for c in (0, 1, 8191, 8192, 8193, 100000):
+        exc = mir.Exec(prog, "int")
+        exc.allow_opaque = True
+        exc.run(f, [mir.Opaque("file"), (exc.const(c, "u32"),)])
+        outs = [z3.simplify(v[1][0][0]) for pc, v in exc.returns if isinstance(v, tuple) and v and v[0] == "Ok"]
+        want = outs[0].as_long() if outs else None
+        vals.append(("grow", [c], (want << 32 | want) if want is not None else None))
+    return qs, ex.encoded, vals
